@@ -11,7 +11,7 @@ BUILTIN_FUNCS = {
     "len", "isinstance", "issubclass", "all", "any", "sum", "type", "list", "tuple", "dict", "frozenset",
     "next", "iter", "enumerate", "zip", "getattr", "hasattr", "object", "float", "sorted", "map", "repr",
     "super", "bool", "int", "min", "max", "range", "id", "str", "set", "deque", "callable", "abs", "print",
-    "takewhile", "reversed", "heappush", "heappop", "SortedDict", "ExitStack",
+    "takewhile", "reversed", "heappush", "heappop", "SortedDict", "ExitStack", "WeakSet",
     # spec-only
     "old", "implies", "iff", "ite", "forall", "exists", "at", "typeof", "dead", "live", "unchanged",
     "seq_eq", "fresh_obj", "allocated", "is_instance_exact", "last_yield", "store", "anything", "real",
@@ -655,6 +655,8 @@ class ExprMixin:
             return k(mk_bool(z3.Exists([i], z3.And(0 <= i, i < lv.n, z3.Select(lv.arr, i) == it.t))), st)
         if isinstance(container, DictFld):
             return k(mk_bool(self.dict_has(st, container, item)), st)
+        if type(container).__name__ == "WeakSetVal":
+            return k(mk_bool(z3.Select(self.set_mem(st, container), coerce(item, container.ety or ANY).t)), st)
         if isinstance(container, Val) and container.ty[0] == "ref" and container.ty[1] is not None:
             return self.call_method(container, "__contains__", [item], {}, st, k)
         raise Unsupported("membership in %r" % (container,))
@@ -694,7 +696,7 @@ class ExprMixin:
             if attr == "f_lasti":
                 return self.coro_lasti(base.coro, st, k)
             raise Unsupported("frame attribute " + attr)
-        if isinstance(base, (Cell, FldList, LVal, EmptyList, PyTup, DictFld, OptList)) or type(base).__name__ == "DictEntryList":
+        if isinstance(base, (Cell, FldList, LVal, EmptyList, PyTup, DictFld, OptList)) or type(base).__name__ in ("DictEntryList", "WeakSetVal"):
             return k(FuncVal("bound_builtin", name="list." + attr, self_val=base), st)
         if isinstance(base, FuncVal) and attr in ("__name__", "__qualname__", "__module__", "__doc__"):
             return k(PyConst("<name>"), st)
